@@ -3,16 +3,22 @@ import NtpVerif.Basic.LineIO
 import NtpVerif.Model.PtpWire
 import NtpVerif.Model.CsptpMsg
 import NtpVerif.Model.CsptpServer
+import NtpVerif.Model.CsptpSource
 
 open NtpVerif NtpVerif.LineIO NtpVerif.PtpWire NtpVerif.Csptp
 
 structure St where
   srv : ServerState
+  src : CsptpSource.St
 
 def St.init : St :=
   { srv := { leap := 0, priority1 := 255, quality := ⟨248, .unknown, 0x8000 - 23 * 256⟩, priority2 := 255,
              stepsRemoved := 0, identity := 0, ptpTimescale := true, timeTraceable := false,
-             freqTraceable := false } }
+             freqTraceable := false }
+    src := { domain := 128, active := false, nextId := 0, phase := .idle,
+             gm := { identity := 0, priority1 := 255, priority2 := 255,
+                     quality := ⟨248, .unknown, 0x8000 - 23 * 256⟩, stepsRemoved := 0, ptp := true,
+                     tt := false, ft := false } } }
 
 def parseAcc (s : String) : Option ClockAccuracy :=
   if s == "R" then some .reserved
@@ -61,6 +67,62 @@ def srvOp (st : St) (ws : List String) : Option String := do
   | .ok ⟨some e, none⟩ => pure s!"event {hexOfBytes e}"
   | .ok ⟨some e, some g⟩ => pure s!"event {hexOfBytes e} general {hexOfBytes g}"
 
+def gmStr (g : CsptpSource.GmState) : String :=
+  s!"{hex64 g.identity}.{g.priority1}.{g.priority2}.{g.quality.clockClass}.{accStr g.quality.accuracy}.{g.quality.variance}.{g.stepsRemoved}.{boolStr g.ptp}.{boolStr g.tt}.{boolStr g.ft}"
+
+def srcObs : CsptpSource.Obs → String
+  | .sent b => s!"sent {hexOfBytes b}"
+  | .none => "none"
+  | .unread => "unread"
+  | .meas m g =>
+    s!"meas a={hex64 m.aSender}/{hex64 m.aReceiver} b={hex64 m.bSender}/{hex64 m.bReceiver} leap={m.leap} st={gmStr g}"
+
+def parseSrcOp (w : String) (ws : List String) : Option CsptpSource.Op :=
+  if w == "req" then do
+    let s ← kv? ws "send"
+    if s == "err" then some (.req none) else (parseTs s).map (fun t => .req (some t))
+  else if w == "rxerr" then some (.ev .rxErr)
+  else if w == "dg" then do
+    let pkt ← kvBytes? ws "pkt"
+    let r ← kv? ws "rx"
+    if r == "none" then some (.ev (.dg pkt none)) else (parseTs r).map (fun t => .ev (.dg pkt (some t)))
+  else none
+
+def portStr (p : PortIdentity) : String := s!"{hex64 p.clock}.{p.port}"
+def tsStr (t : Timestamp) : String := s!"{t.seconds}:{t.nanos}"
+def timeSourceStr : TimeSource → String
+  | .named c => s!"N{c}" | .profileSpecific v => s!"P{v}" | .reserved v => s!"R{v}"
+
+def dumpMsg (m : Message) : String :=
+  let h := m.header
+  let hs := s!"{h.sdoId}.{h.major}.{h.minor}.{h.domain}.{h.flags6}.{h.flags7}.{h.correction}.{portStr h.source}.{h.seqId}.{h.logInterval}"
+  let bs := match m.body with
+    | .sync t => s!"0:{tsStr t}"
+    | .delayReq t => s!"1:{tsStr t}"
+    | .pDelayReq t => s!"2:{tsStr t}"
+    | .pDelayResp t p => s!"3:{tsStr t},{portStr p}"
+    | .followUp t => s!"8:{tsStr t}"
+    | .delayResp t p => s!"9:{tsStr t},{portStr p}"
+    | .pDelayRespFollowUp t p => s!"10:{tsStr t},{portStr p}"
+    | .announce a =>
+      s!"11:{tsStr a.origin},{a.utcOffset},{a.priority1},{a.quality.clockClass},{accStr a.quality.accuracy},{a.quality.variance},{a.priority2},{hex64 a.identity},{a.stepsRemoved},{timeSourceStr a.timeSource}"
+    | .signaling p => s!"12:{portStr p}"
+    | .management g => s!"13:{portStr g.target},{g.startingHops},{g.hops},{g.action}"
+  s!"h={hs} b={bs} s={hexOfBytes m.suffix}"
+
+/-- `de fill=<byte> cap=<n> pkt=<hex>`: parse, dump, re-serialise into a `cap`-byte buffer of `fill` -/
+def deOp (ws : List String) : Option String := do
+  let pkt ← kvBytes? ws "pkt"
+  let fill ← kvNat? ws "fill"
+  let cap ← kvNat? ws "cap"
+  match Message.deserialize pkt with
+  | .error f => pure (failStr f)
+  | .ok m =>
+    let re := match m.serialize (List.replicate cap (UInt8.ofNat fill)) with
+      | .ok b => hexOfBytes b
+      | .error f => failStr f
+    pure s!"ok {dumpMsg m} re={re}"
+
 def stepLine (st : St) (line : String) : St × String :=
   match words line with
   | "cfg" :: ws =>
@@ -68,6 +130,18 @@ def stepLine (st : St) (line : String) : St × String :=
     | some s => ({ st with srv := s }, "ok")
     | none => (st, "bad-op")
   | "srv" :: ws => (st, (srvOp st ws).getD "bad-op")
+  | "de" :: ws => (st, (deOp ws).getD "bad-op")
+  | "scfg" :: ws =>
+    match kvNat? ws "domain", (kv? ws "active").bind parseBool with
+    | some d, some a => ({ st with src := { st.src with domain := d, active := a } }, "ok")
+    | _, _ => (st, "bad-op")
+  | w :: ws =>
+    match parseSrcOp w ws with
+    | none => (st, "bad-op")
+    | some op =>
+      match CsptpSource.step st.src op with
+      | .error f => (st, failStr f)
+      | .ok (s', o) => ({ st with src := s' }, srcObs o)
   | _ => (st, "bad-op")
 
 def main (_args : List String) : IO Unit := do
